@@ -116,7 +116,17 @@ def run(F, S, R, tier):
         good = False
         for b, c in subs:
             a0, a1 = b.operand_sources(c.args[0]), b.operand_sources(c.args[1])
-            if K.src_match(a1, [r"param:proposer|var:proposer"]) and K.src_match(a0, [r"tx_fee"]):
+            # structural (no names): the subtrahend is this closure's own parameter, fed by `.and_then` from safe_mul_ratio(ratio)
+            # in the enclosing closure; the minuend is captured from that enclosing closure (the raw fee)
+            import tables as _T
+            r0 = _T.root_local(b, c.args[0]) if "p" in c.args[0] else None
+            d0 = b.defs().get(r0, []) if r0 is not None else []
+            if len(d0) == 1 and d0[0][0] == "assign" and d0[0][3].get("k") == "use" and "p" in d0[0][3]["o"]:
+                r0 = d0[0][3]["o"]["p"][0]     # a read out of the closure environment: (_1.N)
+            r1 = _T.root_local(b, c.args[1]) if "p" in c.args[1] else None
+            par = F.body(b.parent, b.crate) if b.parent else None
+            fed = bool(par) and any(K.src_match(par.operand_sources(x.args[0]), [r"call:.*Capacity::safe_mul_ratio$"]) for x in par.calls_to(r"Result::<.*>::and_then$"))
+            if b.kind != "Fn" and r1 is not None and 2 <= r1 <= b.argc and r0 == 1 and fed and K.src_match(a0, [r"field:.*BlockExt\.txs_fees$"]):
                 good = True
                 R.ok("prov/committer-share", "committer share = tx_fee - proposer share of the same fee", [c.where()])
         if not good:
